@@ -28,6 +28,9 @@ Mk(t) == [do |-> "mk", t |-> t, c |-> 0]
 Disturbers == <<
   Mk(X), Mk(Y), Mk(Not(X)), Mk(Not(Y)), Mk(Alt(<<X, Y>>)), Mk(Alt(<<Y, X>>)), Mk(And(<<X, Not(Y)>>)),
   Mk(Cat(<<X, Y>>)), Mk(Star(X)), Mk(Not(Not(X))), Mk(Alt(<<Not(X), Y>>)), Mk(AB),
+  \* re-creating the predefined terms of a manager (none, eps, all, sigma_plus) by other routes
+  Mk([k |-> "plus", a |-> [k |-> "allchar"]]), Mk(Not(Eps)), Mk(Star([k |-> "allchar"])), Mk(Not(None)),
+  Mk(Cat(<<[k |-> "allchar"], All>>)),
   [do |-> "deriv", t |-> Alt(<<X, Cat(<<Y, X>>)>>), c |-> A],
   [do |-> "compile", t |-> Cat(<<X, Star(Y)>>), c |-> 0],
   [do |-> "empty", t |-> And(<<X, Y>>), c |-> 0],
